@@ -1,13 +1,10 @@
-# property id -> how to build and run its harness, and what MANIFEST.json says about it.
-P = "src.elv.sh/pkg/"
-ENUM = "bounded-exhaustive enumeration (small-scope model checking of the real code)"
-CHECKS = {
-    "C01": dict(pkg=P + "parse", test="TestVerifC01", level="exploration", engine="enum",
-                technique="exhaustive enumeration of all source strings up to a length bound over a byte and a token alphabet, tree-tiling oracle on every parse",
-                text="Every string of <=5 (thorough <=6) symbols over a 16-symbol byte alphabet and <=4 (<=5) tokens over a 35-token alphabet is parsed by the real parser; every clause of the losslessness statement is checked on every tree. Exhaustive within the bound, so the shortest counterexample is found first.",
-                note="Inputs outside the alphabets/lengths are not covered; non-termination is observed through a 300 s per-case watchdog."),
-}
-NOT_APPLICABLE = {}
-ENGINES = [
-    {"name": "enum", "path": "engine/vk", "serves_properties": [], "kind_free_text": "bounded-exhaustive enumeration kernel (odometer over alphabets, sharded over 16 workers, class-key accounting, known-finding matching, evidence writer)"},
-]
+# Loads /verif/checks/Cnn.json: how to build and run each property's harness, and what MANIFEST.json says about it.
+import json, os, glob
+V = os.path.dirname(os.path.dirname(os.path.abspath(__file__)))
+CHECKS = {}
+for f in sorted(glob.glob(os.path.join(V, "checks", "C*.json"))):
+    CHECKS[os.path.basename(f)[:-5]] = json.load(open(f))
+NOT_APPLICABLE = json.load(open(os.path.join(V, "checks", "not_applicable.json")))
+ENGINES = json.load(open(os.path.join(V, "checks", "engines.json")))
+for e in ENGINES:
+    e["serves_properties"] = sorted(p for p, s in CHECKS.items() if s.get("engine") == e["name"])
